@@ -36,6 +36,7 @@ def cand_entry():
         st.fixed_dictionaries({'form': st.just('instance'), 'name': cls, 'opts': st.just({})}),
         st.fixed_dictionaries({'form': st.just('instance'), 'name': st.just('GaussianKDE'),
                                'opts': st.fixed_dictionaries({'bw_method': st.sampled_from([0.1, 0.5, 'silverman'])})}),
+        st.just({'form': 'boom', 'name': 'Boom'}),        # a candidate whose fit always raises
     )
 
 
@@ -61,7 +62,9 @@ def build_univariate(cfg):
         if cfg['bounded']:
             kw['bounded'] = cu.BoundedType[cfg['bounded']]
         return cu.Univariate(**kw)
-    return cu.Univariate(candidates=[M.build_dist(c) for c in cfg['cands']])
+    from vlib import support
+
+    return cu.Univariate(candidates=[support.Boom if c['form'] == 'boom' else M.build_dist(c) for c in cfg['cands']])
 
 
 def expected_candidates(cfg):
